@@ -1,10 +1,15 @@
 package main
 
 import (
+	"bytes"
 	"context"
 	"fmt"
 	"os"
+	"os/exec"
+	"strings"
+	"time"
 
+	"github.com/jig/lisp"
 	"github.com/jig/lisp/repl"
 )
 
@@ -24,4 +29,130 @@ func init() {
 			os.Exit(4)
 		}
 	}
+}
+
+type replOut struct {
+	K string `json:"k"` // val | thr | err
+	V Node   `json:"v"`
+}
+
+type replCase struct {
+	Lines   []string  `json:"lines"`
+	Outs    []replOut `json:"outs"`
+	Pending int       `json:"pending"`
+	Bad     bool      `json:"bad"`
+}
+
+func init() {
+	kinds["replsession"] = runReplSession
+}
+
+const (
+	replLispErr = "\x1b[31mLisp Error:\x1b[0m "
+	replGoErr   = "Error: "
+)
+
+// runReplSession pipes the lines of one session into the real REPL loop (a child process
+// running repl.Execute) and compares the sequence of output lines with the specification
+// (spec/Repl.tla).  -prop C16 judges how the loop SEGMENTS the input (which lines end an
+// expression, which report an error); -prop C19 judges the values printed.
+func runReplSession(c *Case) Verdict {
+	v := Verdict{Class: "session"}
+	if c.Bad {
+		v.Verdict = "abstain"
+		return v
+	}
+	home, err := os.MkdirTemp("", "replhome")
+	if err != nil {
+		return Verdict{Verdict: "infra", Note: err.Error()}
+	}
+	defer os.RemoveAll(home)
+	ctx, cancel := context.WithTimeout(context.Background(), 30*time.Second)
+	defer cancel()
+	cmd := exec.CommandContext(ctx, os.Args[0], "replchild")
+	cmd.Env = append(os.Environ(), "HOME="+home)
+	cmd.Stdin = strings.NewReader(strings.Join(c.Lines, "\n") + "\n")
+	var stdout, stderr bytes.Buffer
+	cmd.Stdout = &stdout
+	cmd.Stderr = &stderr
+	runErr := cmd.Run()
+	if ctx.Err() != nil {
+		v.Verdict, v.Key, v.Note = "hang", "repl:hang", "the REPL loop did not return at end of input within 30 s"
+		return v
+	}
+	if runErr != nil {
+		if strings.Contains(stderr.String(), "panic:") || strings.Contains(stderr.String(), "goroutine ") {
+			v.Verdict, v.Key, v.Note = "panic", "repl:crash", "the REPL process died: "+tailStr(stderr.String(), 400)
+			return v
+		}
+		return Verdict{Verdict: "infra", Note: "replchild: " + runErr.Error() + " " + tailStr(stderr.String(), 300)}
+	}
+	var got []string
+	for _, l := range strings.Split(stdout.String(), "\n") {
+		if l != "" {
+			got = append(got, l)
+		}
+	}
+	kindOf := func(l string) string {
+		switch {
+		case strings.HasPrefix(l, replLispErr+"«go-error"):
+			return "err"
+		case strings.HasPrefix(l, replLispErr):
+			return "thr"
+		case strings.HasPrefix(l, replGoErr):
+			return "err"
+		}
+		return "val"
+	}
+	pattern := func(ks []string) string { return strings.Join(ks, ",") }
+	var want, have []string
+	for _, o := range c.Outs {
+		want = append(want, o.K)
+	}
+	for _, l := range got {
+		have = append(have, kindOf(l))
+	}
+	v.Obs = map[string]interface{}{"stdout": got}
+	if pattern(want) != pattern(have) {
+		if propFlag == "C16" {
+			v.Verdict, v.Key = "mismatch", "repl:segmentation"
+			v.Note = fmt.Sprintf("session %q: the loop printed [%s] where the specification prescribes [%s]", c.Lines, pattern(have), pattern(want))
+			return v
+		}
+		v.Verdict = "abstain" // judged under C16
+		return v
+	}
+	if propFlag == "C16" {
+		v.Verdict = "ok"
+		return v
+	}
+	for i, o := range c.Outs {
+		if o.K == "err" || !isDataNode(o.V) {
+			continue
+		}
+		text := got[i]
+		if o.K == "thr" {
+			text = strings.TrimPrefix(text, replLispErr)
+		}
+		back, rerr := lisp.READ(text, nil, nil)
+		if rerr != nil {
+			v.Verdict, v.Key = "mismatch", "repl:value:unreadable"
+			v.Note = fmt.Sprintf("session %q: output %d %q does not read back (%v); expected %s", c.Lines, i+1, text, rerr, Canon(o.V))
+			return v
+		}
+		if !EqualNode(o.V, FromMal(back)) {
+			v.Verdict, v.Key = "mismatch", "repl:value"
+			v.Note = fmt.Sprintf("session %q: output %d is %q, the specification prescribes %s", c.Lines, i+1, text, Canon(o.V))
+			return v
+		}
+	}
+	v.Verdict = "ok"
+	return v
+}
+
+func tailStr(s string, n int) string {
+	if len(s) > n {
+		return s[len(s)-n:]
+	}
+	return s
 }
